@@ -514,7 +514,8 @@ def seqLoop (h : Params) : Nat → Row → Bytes → Bytes → Option Nat → Li
           if row.tombstone then seqLoop h fuel (reset h row) rest seqInput startAddr acc
           else if row.endSequence then
             -- `instructions.remove_trailing(&rows.instructions)`
-            let s : Seq := { start := startAddr.getD 0, «end» := row.address,
+            -- `start: sequence_start_addr.unwrap_or(sequence_end_addr)` (as fixed)
+            let s : Seq := { start := startAddr.getD row.address, «end» := row.address,
                              instructions := seqInput.take (seqInput.length - rest.length) }
             seqLoop h fuel (reset h row) rest rest none (s :: acc)
           else
